@@ -1391,6 +1391,10 @@ pub fn do_op(api: &dyn Api, client: usize, idx: usize, op: &Op) {
             rt::jump_clock_ns(*ns);
             Res::Unit
         }
+        Op::WallStepBack { ns } => {
+            rt::wall_step_back_ns(*ns);
+            Res::Unit
+        }
         Op::Yield => {
             rt::yield_now();
             Res::Unit
